@@ -14,7 +14,7 @@ CH = "cluster_metrics.calinski_harabasz_index"
 def _setup(ana):
     fi = ana.func(CH)
     size_prop = ana.prog.cls("containers.model_state.ClusterParameters").properties.get("size")
-    b = ana.builder(fi, no_inline=lambda f: True)
+    b = ana.builder(fi, no_inline=ana.known)
     return fi, b, Sym(fi.params[0]), Sym(fi.params[1])
 
 
